@@ -388,9 +388,23 @@ def realise(sf, env, ctx):
             spec["minimizer"] = sf["minimizer"]
         data = None
         if sf.get("container_ops"):
-            data = dsl.build_container(spec)
+            later = sf.get("values_later")
+            data = dsl.build_container(dict(spec, **({"x": later["x0"], "y": later["y0"]} if later else {})))
             for s in sf["container_ops"]:
                 dsl.apply_container_source(data, spec["type"], s)
+            if later:
+                # the container first held other numbers: its uncertainties are looked at, then the final values are assigned
+                ctx.op("container-values-assigned-later")
+                ctx.add_to_set("values_later_mode", later["mode"])
+                _ = (data.x_err, data.y_err, data.x_cov_mat, data.y_cov_mat)
+                if later["mode"] == "xy-setters":
+                    data.x = np.array(spec["x"], dtype=float)
+                    data.y = np.array(spec["y"], dtype=float)
+                elif later["mode"] == "yx-setters":
+                    data.y = np.array(spec["y"], dtype=float)
+                    data.x = np.array(spec["x"], dtype=float)
+                else:
+                    data.data = np.array([spec["x"], spec["y"]], dtype=float)
         fit = dsl.build_fit(spec, data=data)
         for op in sf.get("ops", []):
             dsl.apply_live(fit, spec, op)
@@ -596,6 +610,9 @@ def compare_fit_results(ctx, case, fa, fb, tag, key, minimizer):
     if not np.isfinite(cond) or cond > 1e4:
         ctx.discard("do_fit-degenerate-minimum-values-not-compared")
         ca, cb = float(fa.cost_function_value), float(fb.cost_function_value)
+        if not (np.isfinite(ca) and np.isfinite(cb)):
+            ctx.discard("do_fit-ended-on-non-finite-cost")
+            return ca == cb or (np.isnan(ca) and np.isnan(cb))
         return ctx.check("fit.cost", abs(ca - cb) <= 10 * ctol, lambda: dict(det, got=cb, expected=ca, tolerance=10 * ctol, cond_cor=cond), key=lambda: key("fit.cost"))
     dev = np.abs(pa - pb)
     ok = ctx.check("fit.parameter_values", bool(np.all(dev <= ptol * sig + 1e-9 * (1.0 + np.abs(pa)))), lambda: dict(det, got=pb, expected=pa, sigma=sig, deviation_in_sigma=dev / np.where(sig > 0, sig, 1.0), tolerance_sigma=ptol), key=lambda: key("fit.parameter_values"))
@@ -720,6 +737,17 @@ def pair_case(family, variant, sub, spec, opsA, opsB, rng, **extra):
         "compare_sources": True,
     }
     case.update(extra)
+    if family == "rel-abs" and spec["type"] == "xy" and all(o[1].get("reference", "data") == "data" for o in opsA) and rng.random() < 0.35:
+        # the relative specification arrives in a container that held other numbers first (values assigned later through the setters):
+        # a relative uncertainty is relative to the values the container holds when the fit is made
+        x, y = np.array(spec["x"], dtype=float), np.array(spec["y"], dtype=float)
+        x0 = x * rng.uniform(1.5, 3.0) + rng.uniform(0.5, 1.5)
+        y0 = y * rng.uniform(1.5, 3.0) + np.sign(y + (y == 0)) * rng.uniform(0.5, 1.5)
+        case["A"] = {
+            "how": "dsl", "spec": spec, "ops": [], "minimizer": minimizer,
+            "container_ops": [dict(o[1], kind="simple" if o[0] == "add_error" else "matrix") for o in opsA],
+            "values_later": {"x0": rl(x0), "y0": rl(y0), "mode": str(rng.choice(["xy-setters", "yx-setters", "data-setter"]))},
+        }
     return case
 
 
